@@ -5,4 +5,5 @@ APPENDS = {
     "rustzx-core/src/zx/sound/ay.rs": ["kani/core/append_ay.rs"],
     "rustzx-core/src/zx/controller.rs": ["kani/core/append_controller.rs"],
     "rustzx-core/src/zx/joy/kempston.rs": ["kani/core/append_kempston.rs"],
+    "rustzx-core/src/emulator/mod.rs": ["kani/core/append_emulator.rs"],
 }
